@@ -125,13 +125,8 @@ fn gen_foldfn(t: &mut Tape, ty: &Ty) -> FoldFn {
 }
 
 fn gen_case(t: &mut Tape) -> Case {
-    // 80 % of the budget avoids the three open findings; the rest switches exactly one avoidance off
-    let sw = match t.weighted(&[12, 1, 1, 1]) {
-        0 => Switches::all_on(),
-        1 => Switches { avoid_dict_remove_nonstr: false, ..Switches::all_on() },
-        2 => Switches { avoid_none_eq_source: false, ..Switches::all_on() },
-        _ => Switches { avoid_key_collision: false, ..Switches::all_on() },
-    };
+    // 80 % of the budget avoids the open key-collision findings; the rest runs with the avoidance off
+    let sw = Switches { avoid_key_collision: !t.chance(1, 5) };
     let kind = match t.weighted(&[3, 3, 2, 2]) {
         0 => Kind::List,
         1 => Kind::Dict,
@@ -385,9 +380,8 @@ impl Check for C18 {
         for l in &r.labels {
             labels.add(l.clone());
         }
-        let sw = &case.sw;
-        if !sw.avoid_dict_remove_nonstr || !sw.avoid_none_eq_source || !sw.avoid_key_collision {
-            labels.add("switch:one-avoidance-off");
+        if !case.sw.avoid_key_collision {
+            labels.add("switch:key-collision-avoidance-off");
         }
         let out = compile(&Project::single(r.source.clone()));
         let lua = match &out {
@@ -573,7 +567,8 @@ impl Check for C18 {
          Inputs excluded as unspecified by docs/signatures (skipped when rendered, counted as labels excluded:*): list.set with an \
          index outside 0..len-1; div(a, 0); the direction in which div rounds a negative inexact quotient (only |a - q*b| < |b| is \
          checked there); sign(0) and sign(0.0); clamp with lo > hi; mixing int and float arguments; |x| > 2^31. \
-         Open findings are avoided for 80 % of the budget by three switches (labels avoided:*), one of which is off in the other 20 %."
+         The open key-collision findings (dict/set keys stored under tostring(k)) are avoided for 80 % of the budget: a key whose \
+         printed text equals that of an earlier key of the universe is not used; the switch is off in the other 20 %."
             .into()
     }
     fn assumptions(&self) -> Vec<String> {
@@ -606,6 +601,9 @@ impl Check for C18 {
             "nt:remove-after-insert",
             "dict:get-hit",
             "dict:get-after-remove",
+            "dict:remove-present(non-str-key)",
+            "dict:remove-present(str-key)",
+            "obs:eq-source-none(library-made)",
             "set:remove-present",
             "list:get-hit",
             "list:get-beyond-end",
